@@ -406,31 +406,50 @@ def _is_some_conjunct_ok(E, fn):
 
 def _literal_types_ok(E):
     """RhsValue::lex_with / RhsValues::lex_with receive only Ip, Bytes, Int: constant arguments, or a value that the path
-    condition of the call restricts to those variants (the arms admitted by R04-admit)"""
+    condition of the call restricts to those variants (the arms admitted by R04-admit). A call inside a private helper
+    is judged in the context of every caller that the helper is inlined into."""
     import sem
-    bad = []
-    n = 0
     UT = sem.enum_universe(E, "types::Type")
-    for hb in E.hir_list:
-        if "body" not in hb or "::tests::" in norm(hb["path"]):
-            continue
-        cs = [c for c in exprs(hb["body"], ("Call", "MethodCall"))
-              if norm(c.get("callee", "")).endswith("LexWith::lex_with") and "types::RhsValue" in norm(c.get("ty", ""))]
-        if not cs:
-            continue
-        S = sem.Sem(E, hb, inline=False)
+
+    def is_lit_call(c):
+        return norm(c.get("callee", "")).endswith("LexWith::lex_with") and "types::RhsValue" in norm(c.get("ty", ""))
+    holders = [hb for hb in E.hir_list if "body" in hb and "::tests::" not in norm(hb["path"]) and
+               any(is_lit_call(c) for c in exprs(hb["body"], ("Call", "MethodCall")))]
+    holder_paths = {norm(hb["path"]) for hb in holders}
+    # roots: the holders and every same-file caller of a holder (helpers are inlined into them)
+    roots = {}
+    for hb in holders:
+        roots[hb["dp"]] = hb
+        for cn in callers_by_name(E).get(norm(hb["path"]), set()):
+            ch = E.hir(cn)
+            if ch is not None:
+                roots[ch["dp"]] = ch
+    verdicts = {}      # id(call node) -> list of (ok, where, root)
+    for hb in roots.values():
+        S = sem.Sem(E, hb)
         for x in S.sites():
-            if not any(x.node is c for c in cs):
+            if x.node.get("k") not in ("Call", "MethodCall") or not is_lit_call(x.node):
                 continue
-            n += 1
+            in_root = x.frame is S.root
+            if in_root and norm(hb["path"]) in holder_paths:
+                it = E.item_by_dp.get(hb["dp"]) or {}
+                helper = it.get("vis") != "Public" and not it.get("parent_kind", "").startswith("Impl { of_trait: true") and \
+                    any(E.hir(cn) is not None and E.hir(cn).get("span", "").rsplit(":", 1)[0] == hb.get("span", "").rsplit(":", 1)[0]
+                        for cn in callers_by_name(E).get(norm(hb["path"]), set()))
+                if helper:
+                    continue       # judged where it is inlined
             a = call_args(x.node)[-1]
             d = def_path(a)
             if d in ("types::Type::Ip", "types::Type::Bytes", "types::Type::Int"):
-                continue
-            adm = sem.admitted_tuples(x.pc, [lambda v, x=x, a=a: S.same(v.node, v.frame, a, x.frame)], [UT])
-            if {last_seg(t[0]) for t in adm} <= {"Ip", "Bytes", "Int"}:
-                continue
-            bad.append("%s at %s" % (norm(hb["path"]), x.node["sp"]))
+                ok = True
+            else:
+                adm = sem.admitted_tuples(x.pc, [lambda v, x=x, a=a: S.same(v.node, v.frame, a, x.frame)], [UT])
+                ok = {last_seg(t[0]) for t in adm} <= {"Ip", "Bytes", "Int"}
+            verdicts.setdefault(id(x.node), []).append((ok, "%s at %s" % (norm(hb["path"]), x.node["sp"])))
+    n = len(verdicts)
+    all_calls = [c for hb in holders for c in exprs(hb["body"], ("Call", "MethodCall")) if is_lit_call(c)]
+    bad = [w for v in verdicts.values() for ok, w in v if not ok]
+    bad += ["never analysed: " + c["sp"] for c in all_calls if id(c) not in verdicts]
     return (not bad and n >= 5), ("%d literal lexer calls, all with Ip/Bytes/Int" % n if not bad else "literal lexer called with an unrestricted type: %s" % bad)
 
 
